@@ -166,7 +166,7 @@ func recvReady[T any](ch <-chan T, obj uintptr) bool {
 	if ch == nil {
 		return false
 	}
-	if len(ch) > 0 || hasParked(obj, 1) {
+	if len(ch) > 0 || (cap(ch) == 0 && hasParked(obj, 1)) {
 		return true
 	}
 	return probeClosed(ch)
@@ -176,7 +176,7 @@ func sendReady[T any](ch chan<- T, obj uintptr) bool {
 	if ch == nil {
 		return false
 	}
-	return len(ch) < cap(ch) || isClosedKnown(obj) || hasParked(obj, 0)
+	return len(ch) < cap(ch) || isClosedKnown(obj) || (cap(ch) == 0 && hasParked(obj, 0))
 }
 
 // recvNow performs a receive that the scheduler has already found enabled.
@@ -193,7 +193,7 @@ func recvNow[T any](ch <-chan T, hp unsafe.Pointer) (v T, ok bool) {
 		v, ok = <-ch
 		return v, ok
 	}
-	if p, ci := parkedPartner(obj, 1); p != nil {
+	if p, ci := parkedPartner(obj, 1); p != nil && cap(ch) == 0 {
 		ra(hp)
 		rr8(hp)
 		iv := serve(p, ci, nil)
@@ -213,11 +213,14 @@ func sendNow[T any](ch chan<- T, hp unsafe.Pointer, v T) {
 		ra8(hp)
 		return
 	}
+	if isClosedKnown(obj) {
+		noteSendOnClosed()
+	}
 	if isClosedKnown(obj) || len(ch) < cap(ch) {
 		ch <- v // panics if closed, as in Go
 		return
 	}
-	if p, ci := parkedPartner(obj, 0); p != nil {
+	if p, ci := parkedPartner(obj, 0); p != nil && cap(ch) == 0 {
 		ra8(hp)
 		rr(hp)
 		serve(p, ci, v)
@@ -277,6 +280,9 @@ func Close[T any](ch chan T) {
 	}
 	obj := uintptr(idS[T](ch))
 	Point(OpClose, obj, nil)
+	if isClosedKnown(obj) {
+		noteDoubleClose()
+	}
 	close(ch)
 	markClosed(obj)
 }
@@ -380,4 +386,18 @@ func SendNow[T any](ch chan<- T, v T) {
 		return
 	}
 	sendNow(ch, idS(ch), v)
+}
+
+//go:norace
+func noteDoubleClose() {
+	if x := cur; x != nil {
+		x.res.DoubleClose++
+	}
+}
+
+//go:norace
+func noteSendOnClosed() {
+	if x := cur; x != nil {
+		x.res.SendOnClosed++
+	}
 }
